@@ -582,7 +582,7 @@ func Run(a common.Args) {
 		hotFactor = 1
 	}
 	if a.Only != 0 {
-		reps *= 10 // replay of one concurrent scenario: look harder for the same schedule
+		reps *= 4 // replay of one concurrent scenario: look harder for the same schedule
 	}
 	results := make([][]emitted, len(behs))
 	skip := make([]bool, len(behs))
